@@ -75,7 +75,8 @@ for f in sorted(glob.glob(out+"/v.*")):
     if exp=="miss": pass   # explicitly not decided (selftest/expected_miss.json): reported or not, nothing to check
     elif exp=="undecided":
         if n>0: fails.append("behaviour-preserving variant %s is reported (%s)"%(id,keys))
-        elif "unresolved anchor" not in err: fails.append("variant %s was expected to end in 'unresolved anchor' (changed signature) but: %s"%(id,err or "passed"))
+        elif err and "unresolved anchor" not in err: fails.append("variant %s (changed signature) may end in 'unresolved anchor' for the properties anchored in the changed function, but: %s"%(id,err))
+    elif exp=="detect" and n>0: pass   # reported (an additional UNDECIDED obligation on the broken variant does not matter)
     elif err: fails.append("variant %s could not be analysed: %s"%(id,err))
     elif exp=="detect" and n==0: fails.append("breaking variant %s (%s) is NOT reported by the rules of %s"%(id,kind,prop))
     elif exp=="silent" and n>0: fails.append("behaviour-preserving variant %s is reported (%s)"%(id,keys))
